@@ -183,7 +183,7 @@ theorem fad_descV_scalar (name : Str) (v : Val) (h : isContainer v = false) : de
 /-! ## small facts about the model used below -/
 
 /-- a call on a dictionary never changes the list object it received (all in-place updates of the
-last element happen on a list node or behind a `text()` condition on a string) -/
+last element happen on a list node; a `text()` condition goes on in the same dictionary) -/
 theorem fad_fa_fl_dict (re : Bool) : ∀ (fuel : Nat) (c : Cls) (kvs : List (Str × Val)) (toks : List Str) (fl : FL) (ps : PS),
     (fa re fuel (.dict c kvs) toks fl ps).fl = fl := by
   intro fuel
@@ -197,7 +197,9 @@ theorem fad_fa_fl_dict (re : Bool) : ∀ (fuel : Nat) (c : Cls) (kvs : List (Str
     · split
       · unfold stepUp; split <;> rfl
       · rfl
-      · simp only [stepText]
+      · -- text(): a dictionary has no text; `!=` continues in the same dictionary (fix C19-f)
+        rcases stepText_cases (fa re f) (.dict c kvs) _ _ _ fl ps with h | h | ⟨_, h⟩ <;> rw [h]
+        exact ih _ _ _ _ _
       · simp only [stepIdx]; split <;> rfl
       · simp only [stepStar]
       · simp only [stepName]
@@ -1314,14 +1316,10 @@ theorem fad_step_ok {root : Val} (hroot : ∃ c kvs, root = .dict c kvs) (hko : 
           exact hr _ _ _ _ _ (hinv.up hgs hl) f h
     · cases h
     · -- text(): the condition only filters
-      unfold stepText at h
-      split at h
-      · split at h
-        · cases h
-        · split at h
-          · cases h
-          · exact hr _ _ _ _ _ hinv.register f h
+      rcases stepText_cases rec node _ _ _ fl ps with h' | h' | ⟨_, h'⟩ <;> rw [h'] at h
       · cases h
+      · cases h
+      · exact hr _ _ _ _ _ hinv.register f h
     · -- index
       rename_i i _
       unfold stepIdx at h
